@@ -83,7 +83,8 @@ def run(tier="quick", seed=0, use_cache=True):
         "keys/values before the conversion-free layer. Equality with a "
         "reference sorted map over call histories (binary-search "
         "correctness over runtime keys, split/unlink paths over reachable "
-        "shapes) is not decided.")
+        "shapes) is not decided."
+        " FIRSTBUCKET-INV: every store of a node's firstbucket takes the value from the node's own contents (helper parameters decided at the call sites). SEP-REFRESH: the separator-refresh guard as a decision table over (child index, entries left), C = Python. PY-DEL-TAIL: decision table over (child lost its first leaf, child 0, child empty, child is a leaf) of what Python _Tree._del does behind the child's delete (unlink calls, _firstbucket, removal, flag). SEARCH-BRANCH (C) is a path rule over tests of the search result, written out or named.")
     res.assumptions = ["necessary conditions only"]
     out = engine.map_tus("sa.props.C01", "tu_check", use_cache=use_cache)
     tot_none = tot_search = tot_conv = tot_ke = 0
